@@ -354,6 +354,7 @@ package parse
 // are offsets into that very text.
 //@ func lexExpr
 //@   props C05 C18 C19 C13
+//@   onlycallers[every-function-that-starts-a-scanner-is-under-the-drain-contracts;C18] Expr (*tree).parseQuotedExpr
 //@   note goroutine (*lexer).run: one producer (the scanner), one consumer (the parser), an unbuffered channel: tokens arrive in the scanner's emission order, and the scanner is sequential code under its own contracts
 //@   pure
 //@   ensures[scans-the-given-text-under-the-given-name;C19] result != nil && fresh(result) && same(result.input, input) && same(result.name, name)
@@ -361,6 +362,7 @@ package parse
 //@   trustedensures result.recv == 0 && !result.done && ntoks(result) >= 1
 //@ func lex
 //@   props C05 C18 C19 C13
+//@   onlycallers[every-function-that-starts-a-scanner-is-under-the-drain-contracts;C18] SoyFile
 //@   note goroutine (*lexer).run: one producer (the scanner), one consumer (the parser), an unbuffered channel: tokens arrive in the scanner's emission order, and the scanner is sequential code under its own contracts
 //@   pure
 //@   ensures[scans-the-given-text-under-the-given-name;C19] result != nil && fresh(result) && same(result.input, input) && same(result.name, name)
@@ -535,10 +537,26 @@ package parse
 //@   requires tokShape(tok) && (tok.typ == itemNull || tok.typ == itemBool || tok.typ == itemInteger || tok.typ == itemFloat || tok.typ == itemDollarIdent || tok.typ == itemString || tok.typ == itemIdent || tok.typ == itemLeftBracket)
 //@   ensures result != nil
 
+// C17 (parser side of the round trip): each access token becomes the node kind
+// whose printed form scans as that token again: .ident / ?.ident a key access
+// with the identifier's text, .N / ?.N an index access, [ / ?[ an expression
+// access holding the parsed expression (never rewritten into another kind).
 //@ func (*tree).parseDataRef
 //@   like exprFn
 //@   measure rem(t), 1
 //@   requires len(tok.val) >= 1
+//@   ghost gk itemType = 0
+//@   ghost gv string = ""
+//@   ghost ge ast.Node = nil
+//@   at call (*tree).next#0 after set gk = res.typ
+//@   at call (*tree).next#0 after set gv = res.val
+//@   at call (*tree).parseExpr#0 after set ge = res
+//@   at call store#3 assert[access-node-kind-follows-the-token-kind;C17] ((gk == itemDotIdent || gk == itemQuestionDotIdent) == typeis(val, *ast.DataRefKeyNode)) && ((gk == itemDotIndex || gk == itemQuestionDotIndex) == typeis(val, *ast.DataRefIndexNode)) && ((gk == itemLeftBracket || gk == itemQuestionKey) == typeis(val, *ast.DataRefExprNode))
+//@   at call store#7 assert[key-is-the-identifier-after-the-dot;C17] substr(val, gv, ite(gk == itemQuestionDotIdent, 2, 1)) && len(val) == len(gv) - ite(gk == itemQuestionDotIdent, 2, 1)
+//@   at call store#6 assert[null-safe-exactly-for-the-question-mark-token;C17] val == (gk == itemQuestionDotIdent)
+//@   at call store#9 assert[null-safe-exactly-for-the-question-mark-token;C17] val == (gk == itemQuestionDotIndex)
+//@   at call store#12 assert[null-safe-exactly-for-the-question-mark-token;C17] val == (gk == itemQuestionKey)
+//@   at call store#13 assert[bracket-access-holds-the-parsed-expression;C17] val == ge
 //@   ensures result != nil
 //@   loop 0
 //@     invariant stepOK(t) && ref != nil && fresh(ref) && fresh(ref.Access)
